@@ -192,10 +192,19 @@ def run_shard(args: Dict[str, Any]) -> Dict[str, Any]:
             result['violation'] = {'case': case, 'viol': viol.to_json(), 'source': 'hypothesis'}
         except HarnessError:
             result['error'] = traceback.format_exc()
-        except Exception:
-            result['error'] = traceback.format_exc()
-            if failing['case'] is not None:
-                result['error_case'] = failing['case']
+        except Exception as exc:
+            from hypothesis.errors import Flaky
+
+            if isinstance(exc, Flaky) and failing['case'] is not None and failing['viol'] is not None \
+                    and getattr(mod, 'FLAKY_IS_VIOLATION', None) and mod.FLAKY_IS_VIOLATION(failing['case']):
+                # a violation was observed on the real code but did not recur when Hypothesis re-ran the case: only possible for
+                # the cases that run real threads (their schedule belongs to the operating system); what was seen stands
+                result['violation'] = {'case': failing['case'], 'viol': failing['viol'].to_json(),
+                                       'source': 'hypothesis (observed once; real-thread case, not deterministic)'}
+            else:
+                result['error'] = traceback.format_exc()
+                if failing['case'] is not None:
+                    result['error_case'] = failing['case']
     result['inconclusive_budget'] = state['stop']
     result['stats'] = stats.dump()
     result['wall_s'] = time.time() - t0
